@@ -1068,7 +1068,7 @@ func c15Exhaustive(tier string) []corr.Case {
 		{
 			l := c15Header(stack, t, nil)
 			k := 0
-			for _, seq := range [][]int{{1, 2, 3, 1}, {2, -1, 1}, {3, 0, 1}, {1, 1, 1, 1, 1, 1}, {100, 100}, {2, 2, 2, 2}} {
+			for _, seq := range [][]int{{1, 2, 3, 1}, {2, -1, 1}, {3, 0, 1}, {1, 1, 1, 1, 1, 1}, {100, 100}, {2, 2, 2, 2}, {1, 9223372036854775807, 1}, {9223372036854775807, 1}, {2, 9223372036854775806}} {
 				for _, d := range []string{"a", "a/b/c", "."} {
 					l = append(l, "io.open "+h(d))
 					for _, n := range seq {
